@@ -16,7 +16,7 @@ Open Scope Z_scope.
 Record pstate := mk_p {
   p_enc : enc_state;       (* peer.channel_encryptor *)
   p_is_header : bool;      (* peer.pending_read_is_header *)
-  p_init : bool }.         (* peer.their_features.is_some() *)
+  p_gate : gstate }.       (* peer.their_features.is_some(), peer.message_batch *)
 
 Section PeerRead.
   Variable dh : bytes -> bytes -> bytes.
@@ -42,7 +42,7 @@ Section PeerRead.
       | Some None => CErr []
       | Some (Some (act_two, e)) =>
         (* act three is 66 bytes long *)
-        CNext (mk_p e (p_is_header p) (p_init p)) 66%nat [EvOutRaw act_two]
+        CNext (mk_p e (p_is_header p) (p_gate p)) 66%nat [EvOutRaw act_two]
       end
     | ActTwo =>
       match process_act_two dh pub pk_valid hkdf2 H seal open (p_enc p) chunk our_node_secret with
@@ -50,14 +50,14 @@ Section PeerRead.
       | Some None => CErr []
       | Some (Some (act_three, their_node_id, e)) =>
         (* message length header is 18 bytes; pending_read_is_header = true; our Init is enqueued *)
-        CNext (mk_p e true (p_init p)) 18%nat [EvOutRaw act_three; EvNoiseDone their_node_id]
+        CNext (mk_p e true (p_gate p)) 18%nat [EvOutRaw act_three; EvNoiseDone their_node_id]
       end
     | ActThree =>
       match process_act_three dh pk_valid hkdf2 H open (p_enc p) chunk with
       | None => CPanic
       | Some None => CErr []
       | Some (Some (their_node_id, e)) =>
-        CNext (mk_p e true (p_init p)) 18%nat [EvNoiseDone their_node_id]
+        CNext (mk_p e true (p_gate p)) 18%nat [EvNoiseDone their_node_id]
       end
     | NoiseComplete =>
       match p_enc p with
@@ -68,14 +68,14 @@ Section PeerRead.
           | Some (msg_len, t') =>
             (* pending_read_buffer.resize(msg_len + 16); if msg_len < 2 { return Err } *)
             if msg_len <? MIN_MSG_LEN then CErr []
-            else CNext (mk_p (Finished t') false (p_init p)) (Z.to_nat msg_len + 16)%nat []
+            else CNext (mk_p (Finished t') false (p_gate p)) (Z.to_nat msg_len + 16)%nat []
           end
         else
           match dec_body open t chunk with
           | None => CErr []
           | Some (m, t') =>
             (* reset read buffer to 18 bytes, pending_read_is_header = true, then decode + handle *)
-            match gate_msg decode init_ok handler_ok (p_init p) m with
+            match gate_msg decode init_ok handler_ok (p_gate p) m with
             | (evs, Some b) => CNext (mk_p (Finished t') true b) 18%nat evs
             | (evs, None) => CErr evs
             end
@@ -86,16 +86,16 @@ Section PeerRead.
 
   (** [new_inbound_connection]: waits for the 50 bytes of act one *)
   Definition inbound_conn : conn pstate :=
-    mk_c (mk_r (mk_p (new_inbound pub H our_node_secret) false false) 50%nat []) Alive.
+    mk_c (mk_r (mk_p (new_inbound pub H our_node_secret) false gate0) 50%nat []) Alive.
 
   (** [new_outbound_connection]: act one is returned to the caller, then waits for act two *)
   Definition outbound_conn (their_node_id ephemeral_key : bytes) : option (bytes * conn pstate) :=
     match get_act_one dh pub hkdf2 H seal (new_outbound H their_node_id ephemeral_key) with
     | None => None
-    | Some (act_one, e) => Some (act_one, mk_c (mk_r (mk_p e false false) 50%nat []) Alive)
+    | Some (act_one, e) => Some (act_one, mk_c (mk_r (mk_p e false gate0) 50%nat []) Alive)
     end.
 
   (** a connection whose handshake is over, at a frame boundary *)
-  Definition transport_conn (t : transport) (init_seen : bool) : conn pstate :=
-    mk_c (mk_r (mk_p (Finished t) true init_seen) 18%nat []) Alive.
+  Definition transport_conn (t : transport) (g : gstate) : conn pstate :=
+    mk_c (mk_r (mk_p (Finished t) true g) 18%nat []) Alive.
 End PeerRead.
